@@ -83,6 +83,9 @@ type Config struct {
 	// every departure from the fair round-robin default costs one deviation
 	// (delay bounding), which keeps bound k small enough to finish.
 	FreeForced bool
+	// NoFreeze removes the freeze deviation (deschedule the default thread
+	// until nothing else can run) from the alternatives of a scheduling point.
+	NoFreeze bool
 }
 
 // Failure is one violating execution.
@@ -248,7 +251,7 @@ func (e *explorer) run(prefix []int, trace bool) (*Exec, *End, string, string) {
 func (e *explorer) run2(prefix []int, trace, noSpin bool) (*Exec, *End, string, string) {
 	body, check := e.sc()
 	x := &Exec{prefix: prefix, horizon: e.cfg.Horizon, end: make(chan struct{}, 1), ack: make(chan struct{}),
-		raceOn: e.cfg.Race, raceSeen: map[string]bool{}, tracing: trace, spinOff: noSpin, freeForced: e.cfg.FreeForced,
+		raceOn: e.cfg.Race, raceSeen: map[string]bool{}, tracing: trace, spinOff: noSpin, freeForced: e.cfg.FreeForced, freezeOn: !e.cfg.NoFreeze,
 		now: time.Unix(1_700_000_000, 0)}
 	if x.raceOn {
 		x.shadow = map[uintptr]*shadow{}
